@@ -430,6 +430,7 @@ func runC04(c *Ctx) {
 	}
 	checkIteratorNilOnlyAtExhaustion(c, "index-count.iterator-nil-at-exhaustion")
 	checkSpecificKeysPlumbing(c, "plumbing.selected-keys")
+	checkDownloadWrites(c, "plumbing.download-writes")
 }
 
 // disjuncts splits a || b || c.
